@@ -14,6 +14,10 @@ type scenRef struct {
 	quickS    int // seconds of simulation on 16 children, quick tier
 	thoroughS int
 	Extra     []string
+	// Procs > 1 runs the children of this pass with that GOMAXPROCS: real parallelism
+	// inside each bubble (schedules are then not replayable; used where a property is
+	// about truly concurrent callers and the code has no yield point to interleave at)
+	Procs int
 }
 
 type propSpec struct {
@@ -65,7 +69,8 @@ var properties = map[string]*propSpec{
 		Rule: "runs of scenario prep (concurrent executors of 1-3 statements, small caches, PREPARE failures, UNPREPARED answers after node restarts, parks inside prepareStatement); distinct = distinct canonical-log fingerprint; non-trivial = at least one fault or park fired and at least one operation completed"},
 	"C15": {Level: "exploration", Scenarios: []scenRef{{Name: "page", quickS: 20, thoroughS: 600}},
 		Rule: "runs of scenario page (scripted pages incl. empty ones, page sizes, prefetch thresholds, four consumers stepped row by row, manual paging, a fetch failure at any page, prefetch reply racing the consumer); distinct = distinct canonical-log fingerprint; non-trivial = at least one fault or park fired and at least one operation completed"},
-	"C19": {Level: "exploration", Scenarios: []scenRef{{Name: "uuid", quickS: 10, thoroughS: 300, Extra: []string{"-sim.nofaultevery=0"}}},
+	"C19": {Level: "exploration", Scenarios: []scenRef{{Name: "uuid", quickS: 8, thoroughS: 200, Extra: []string{"-sim.nofaultevery=0"}},
+		{Name: "uuid", quickS: 6, thoroughS: 100, Extra: []string{"-sim.nofaultevery=0"}, Procs: 8}},
 		Rule: "runs of scenario uuid: 2-8 goroutines generating up to 200 time-UUIDs each at one stalled simulated instant (< 16384 per instant: the 14-bit clock sequence), tape-chosen forward clock jumps between batches; distinct = distinct canonical-log fingerprint; non-trivial = concurrent generators ran and at least one batch completed"},
 	"C20": {Level: "exploration", Scenarios: []scenRef{{Name: "sec", quickS: 25, thoroughS: 600}},
 		Rule: "runs of scenario sec: one cell of the documented TLS table (Config nil/present x InsecureSkipVerify x EnableHostVerification x ServerName x CA / key-pair file variants x certificate presented x host form) with real crypto/tls over the simulated transport, or one cell of the authentication table (class demanded x client authenticator x credentials); distinct = distinct canonical-log fingerprint; non-trivial = a non-default variant was drawn and the session attempt completed"},
@@ -73,7 +78,7 @@ var properties = map[string]*propSpec{
 		Rule: "runs of scenario topo: tape-chosen membership/event/fault histories on a cluster model, each step followed by a settle and a full comparison of ring, address index, host list, pools and policy with the model; distinct = distinct canonical-log fingerprint; non-trivial = at least one membership change or fault was applied and at least one comparison completed"},
 	"C17": {Level: "exploration", Scenarios: []scenRef{{Name: "life", quickS: 25, thoroughS: 600}, {Name: "sec", quickS: 6, thoroughS: 60}}, DeadlockProperty: "C17", RaceScenario: "life",
 		Rule: "runs of scenario life (queries, 1-2 Session.Close calls at tape-chosen points, events, connection and control-connection losses, handshake failures, dial refusals, parks at pool / debouncer / control / Close yield points) and of scenario sec (goroutines surviving failed session creation); distinct = distinct canonical-log fingerprint; non-trivial = at least one fault or park fired and at least one operation completed"},
-	"C11": {Level: "exploration", Scenarios: []scenRef{{Name: "pick", quickS: 15, thoroughS: 600}},
+	"C11": {Level: "exploration", Scenarios: []scenRef{{Name: "pick", quickS: 12, thoroughS: 500}, {Name: "pick", quickS: 8, thoroughS: 100, Procs: 8}},
 		Rule: "runs of scenario pick: generated cluster layouts and add/remove/up/down/keyspace histories against a host-set model, picks iterated to exhaustion, plus scheduled picks racing mutations; distinct = distinct canonical-log fingerprint; non-trivial = at least one state-changing history op was applied and at least one checked pick with two or more known hosts completed"},
 	"C08": {Level: "exploration", Scenarios: []scenRef{{Name: "ids", quickS: 15, thoroughS: 600, Extra: []string{"-sim.nofaultevery=0"}}}, CrashProperty: "C08",
 		Rule: "runs of scenario ids: tape-chosen interleavings of the allocator's atomic steps; distinct = distinct canonical-log fingerprint; non-trivial = at least one park fired (two callers inside the allocator at once) and at least one operation completed"},
